@@ -31,7 +31,7 @@ def forests(n):
 
 
 class World:
-    def __init__(self, parent, thr, report=None, gt=(), values=None):
+    def __init__(self, parent, thr, report=None, gt=(), values=None, link='parent'):
         """values: optional strictly increasing list of floats; rank r then stands for values[r] instead of r/16 (thresholds are
         Python floats, i.e. doubles; distances are produced by dists() in the requested representation)"""
         self.values = values
@@ -45,7 +45,10 @@ class World:
             self.taxa.append(t)
         for i in range(n):
             if parent[i]:
-                self.taxa[i].parent = self.taxa[parent[i] - 1]
+                if link == 'children':
+                    self.taxa[parent[i] - 1].children.append(self.taxa[i])      # the forest built top-down, from the parents' side
+                else:
+                    self.taxa[i].parent = self.taxa[parent[i] - 1]
         self.tid = {id(t): i + 1 for i, t in enumerate(self.taxa)}
         self.genomes = []
         for g, ti in enumerate(gt):
